@@ -23,6 +23,7 @@ import DSymVerif.Proofs.Delaney2dClassify
 import DSymVerif.Proofs.Delaney2dConstr
 import DSymVerif.Proofs.Delaney2dCover
 import DSymVerif.Proofs.Delaney2dGauss
+import DSymVerif.Proofs.Delaney2dCorners
 
 namespace DSymVerif.C08
 open DSymVerif.DS DSymVerif.D2 DSymVerif.SpecC08
@@ -529,33 +530,68 @@ theorem curvature_euler_formula (s : Sym) (g : Good2d s) :
 
 example : Good2d ex632 := ex632_good
 
-/-- what the decidable monitor `D2.symbolExact` (evaluated by the driver on every explored
-    symbol) establishes about the model's orbifold symbol: it is defined, its cones are the cone
-    census, the corners of all its boundary components together are the corner census (the
-    boundary tracing collected every mirror corner exactly once), `2·handles + crosscaps` is
+/-- **`opposite`**: from the mirror end `(b, e)` of the (a,b)-orbit of `e`, walking alternately
+    `op a`, `op b`, …, `opposite` returns (no panic, the fuel of the model suffices) the *other*
+    mirror end `(k', e')` of that orbit, and from there it returns `(b, e)`: the two mirror ends
+    of a chain are different and `opposite` exchanges them. -/
+theorem opposite_exchanges_mirror_ends (y : DSymData) (hv : ValidSet y.dset) (rep : Rep) (a b e : Nat)
+    (ha : a ≤ y.dim) (hb : b ≤ y.dim) (hab : a ≠ b) (he : 1 ≤ e ∧ e ≤ y.size)
+    (hloop : y.dset.opU b e = e) :
+    ∃ k' e', opposite ⟨y, rep⟩ a b e = .ok (k', e') ∧ (k' = a ∨ k' = b) ∧ (1 ≤ e' ∧ e' ≤ y.size) ∧
+      y.dset.opU k' e' = e' ∧ Orb2 y.dset a b e e' ∧ (k', e') ≠ (b, e) ∧
+      opposite ⟨y, rep⟩ (a + b - k') k' e' = .ok (b, e) :=
+  opposite_spec hv rep ha hb hab he hloop
+
+example : ValidSet exData.dset ∧ exData.dset.opU 1 1 = 1 := ⟨exData_valid.set, by decide +kernel⟩
+
+/-- **the boundary tracing is exact (M1, unconditional).**  On every valid 2D symbol, in either
+    representation, `trace_boundary` returns — no panic, no fuel exhaustion — and the corners of
+    all returned boundary components together are, as a multiset, exactly the branching numbers
+    > 1 of the 2-orbits with a mirror: every mirror corner is collected exactly once.
+    (The walk `phi = rho ∘ tau` on boundary darts: two fixed-point-free involutions, so a trace
+    closes up at its own start and never meets a mirror end twice; every mirror end is marked
+    once, #mirror ends = #orbits with a mirror, and every such orbit is read by a marked dart.) -/
+theorem trace_boundary_corners_exact (y : DSymData) (h : ValidSym y) (hdim : y.dim = 2) (rep : Rep) :
+    ∃ bnds, traceBoundary ⟨y, rep⟩ = .ok bnds ∧ bnds.flatten.Perm (cornersOf (typesOf y)) :=
+  traceBoundary_corners h hdim rep
+
+example : ValidSym exData ∧ exData.dim = 2 := ⟨exData_valid, by decide +kernel⟩
+
+/-- what the decidable monitor `D2.genusMonitor` (implied by `D2.symbolExact`, which the driver
+    evaluates on every explored symbol) adds to the theorems above to make the model's orbifold
+    symbol exact: it is defined, its cones are the cone census, the corners of all its boundary
+    components together are the corner census, `2·handles + crosscaps` is
     `2 − χ_top − #boundaries` (no loss in `x / 2`), and it is closed without cross-cap exactly
     when the D-symbol is oriented. -/
-theorem symbolExact_sound (s : Sym) (g : Good2d s) (hex : symbolExact s = true) :
+theorem symbolExact_sound (s : Sym) (g : Good2d s) (hmon : genusMonitor s = true) :
     ∃ o, SymbolExact s o :=
-  symbolExact_spec g hex
+  symbolExact_of_genus g hmon
 
-example : symbolExact ex632 = true ∧ symbolExact ex332 = true := by decide +kernel
+example : genusMonitor ex632 = true ∧ symbolExact ex632 = true ∧ symbolExact ex332 = true := by
+  decide +kernel
 
-/-- **Gauss–Bonnet for the model, under the monitor**: K = 2·χ(orbifold symbol), χ the Spec's
-    `orbifoldChi` (`chiQ`) of the model's own orbifold symbol. -/
-theorem gauss_bonnet_conditional (s : Sym) (g : Good2d s) (hex : symbolExact s = true) :
+/-- the monitor evaluated by the driver implies the premise of the conditional theorems -/
+theorem symbolExact_implies_genusMonitor (s : Sym) (hex : symbolExact s = true) :
+    genusMonitor s = true :=
+  genus_of_symbolExact hex
+
+/-- **Gauss–Bonnet for the model, under the genus monitor**: K = 2·χ(orbifold symbol), χ the
+    Spec's `orbifoldChi` (`chiQ`) of the model's own orbifold symbol.  The premise only concerns
+    the handle / cross-cap bookkeeping (evenness of `2 − χ` for orientable symbols; closed without
+    cross-cap ⇔ oriented); the correctness of the boundary tracing is a theorem. -/
+theorem gauss_bonnet_conditional (s : Sym) (g : Good2d s) (hmon : genusMonitor s = true) :
     ∃ K o, curvature s = .ok K ∧ orbifoldSymbol s = .ok o ∧ K.toRat = 2 * chiQ (orbOf o) := by
-  obtain ⟨o, hx⟩ := symbolExact_spec g hex
+  obtain ⟨o, hx⟩ := symbolExact_of_genus g hmon
   obtain ⟨K, hK, hv⟩ := gauss_bonnet_exact g hx
   exact ⟨K, o, hK, hx.sym, hv⟩
 
-/-- **the third sentence of the property in the Spec's own terms, under the monitor**:
+/-- **the third sentence of the property in the Spec's own terms, under the genus monitor**:
     `is_spherical` ⇔ K > 0 ∧ ¬ `SpecC08.bad` (model's orbifold symbol). -/
 theorem isSpherical_iff_spec_conditional (s : Sym) (g : Good2d s) (hsz : 1 ≤ s.size)
-    (hex : symbolExact s = true) :
+    (hmon : genusMonitor s = true) :
     ∃ K o, curvature s = .ok K ∧ orbifoldSymbol s = .ok o ∧ K.toRat = 2 * chiQ (orbOf o) ∧
       isSpherical s = .ok (decide (0 < K.toRat) && !bad (orbOf o)) := by
-  obtain ⟨o, hx⟩ := symbolExact_spec g hex
+  obtain ⟨o, hx⟩ := symbolExact_of_genus g hmon
   obtain ⟨K, hK, hv, hs⟩ := isSpherical_spec g hsz hx
   exact ⟨K, o, hK, hx.sym, hv, hs⟩
 
@@ -563,11 +599,12 @@ theorem isSpherical_iff_spec_conditional (s : Sym) (g : Good2d s) (hsz : 1 ≤ s
 
 /-- ◐ Gauss–Bonnet for the model without the monitor: on a valid connected complete 2D symbol the
     curvature is twice the Euler characteristic of the orbifold named by the model's orbifold
-    symbol.  What is missing relative to `gauss_bonnet_conditional` is `symbolExact s = true` for
-    every good connected symbol, i.e. the correctness of the boundary tracing (`traceBoundary`
-    collects every mirror corner exactly once) and the evenness of `2 − χ` for orientable
-    symbols; the monitor is evaluated on every explored symbol and the conclusion is also the
-    Spec clause `curvature-eq-twice-chi-of-symbol` on the implementation's answers. -/
+    symbol.  What is missing relative to `gauss_bonnet_conditional` is `genusMonitor s = true` for
+    every good connected symbol: the evenness of `2 − χ_top − #boundaries` for weakly oriented
+    symbols and "no boundary and no cross-cap ⇔ oriented" — facts of surface topology (the Euler
+    characteristic of a closed orientable surface is even), not of the code.  The monitor is
+    evaluated on every explored symbol and the conclusion is also the Spec clause
+    `curvature-eq-twice-chi-of-symbol` on the implementation's answers. -/
 def gauss_bonnet_statement : Prop :=
   ∀ (s : Sym) (k : Frac) (o : OrbSym), s.view.isConnected = true →
     curvature s = .ok k → orbifoldSymbol s = .ok o →
